@@ -29,6 +29,7 @@ type SpecEnv struct {
 	at       *ssa.BasicBlock   // for resolving local variable names (loop invariants)
 	entry    map[string]string // state at loop entry (loop clauses)
 	noLocals bool
+	override map[string]string // state name -> term, inside within(snapshot, Store, expr)
 }
 
 func (env *SpecEnv) fail(format string, a ...interface{}) {
@@ -37,6 +38,9 @@ func (env *SpecEnv) fail(format string, a ...interface{}) {
 
 func (env *SpecEnv) state(name string) string {
 	e := env.e
+	if t, ok := env.override[name]; ok {
+		return t
+	}
 	if env.inOld {
 		if env.old != nil {
 			if t, ok := env.old[name]; ok {
@@ -84,6 +88,13 @@ func (env *SpecEnv) quantSort(ty string) (string, types.Type) {
 	if ty == "Slice_ref" {
 		// slice of pointers (references are integers)
 		return env.e.g().SortOf(types.NewSlice(types.Typ[types.Int])), nil
+	}
+	if strings.HasPrefix(ty, "KV_") {
+		// a snapshot of one store (its raw key/value array), as a value: argument of ghost functions that sum over records
+		if sd := env.e.r.v.specs.Stores[strings.TrimPrefix(ty, "KV_")]; sd != nil {
+			bs := bytesSort(env.e.g())
+			return fmt.Sprintf("(Array %s %s)", bs, bs), nil
+		}
 	}
 	if strings.HasPrefix(ty, "Heap_") {
 		// the heap of cells of a named struct type, as a value (argument of ghost functions that read through pointers)
@@ -980,6 +991,31 @@ func (env *SpecEnv) call(x *SExpr) SV {
 	case "sel": // raw SMT select on array-sorted state
 		a := argv(0)
 		return SV{t: fmt.Sprintf("(select %s %s)", a.t, argv(1).t), sort: arrayRange(a.sort)}
+	case "snap": // snap(Store): the store's raw array in the current (or old) state, as a value
+		if len(x.Args) == 1 && x.Args[0].Op == "id" {
+			if sd := env.e.r.v.specs.Stores[x.Args[0].S]; sd != nil {
+				bs := bytesSort(g)
+				return SV{t: env.storeArr(sd), sort: fmt.Sprintf("(Array %s %s)", bs, bs)}
+			}
+		}
+		env.fail("snap: argument must be a store name")
+	case "within": // within(s, Store, expr): expr evaluated with the store's contents taken from snapshot s
+		if len(x.Args) == 3 && x.Args[1].Op == "id" {
+			if sd := env.e.r.v.specs.Stores[x.Args[1].S]; sd != nil {
+				sv := argv(0)
+				env.storeArr(sd)
+				save := env.override
+				env.override = map[string]string{}
+				for k, v := range save {
+					env.override[k] = v
+				}
+				env.override[sd.KV] = sv.t
+				r := env.expr(x.Args[2])
+				env.override = save
+				return r
+			}
+		}
+		env.fail("within: usage within(snapshot, Store, expr)")
 	case "global": // global(name): the package-level variable of the function's own package, in the current (or old) state
 		if len(x.Args) == 1 && x.Args[0].Op == "id" && env.e.r.fn != nil && env.e.r.fn.Pkg != nil {
 			if g, ok := env.e.r.fn.Pkg.Members[x.Args[0].S].(*ssa.Global); ok {
